@@ -757,7 +757,7 @@ mod pipeline {
 
     use crate::communicate::{self, Communicator};
     use crate::os_common::ExitStatus;
-    use crate::popen::{Popen, Redirection, Result as PopenResult};
+    use crate::popen::{Popen, PopenError, Redirection, Result as PopenResult};
 
     use super::exec::{CaptureData, Exec, InputRedirection, OutputRedirection};
 
@@ -949,8 +949,17 @@ mod pipeline {
         /// to missing output), except for the ones for which
         /// `detached()` was called.  This is equivalent to what the
         /// shell does.
-        pub fn popen(mut self) -> PopenResult<Vec<Popen>> {
+        pub fn popen(self) -> PopenResult<Vec<Popen>> {
             self.check_no_stdin_data("popen");
+            // on failure, dropping the commands already started waits for them
+            self.start().map_err(|(err, _started)| err)
+        }
+
+        // Does the work of popen().  If a command fails to start, the ones
+        // already running are handed back along with the error, so that a
+        // caller holding something they may be blocked on can let go of it
+        // before they are waited for.
+        fn start(mut self) -> Result<Vec<Popen>, (PopenError, Vec<Popen>)> {
             assert!(self.cmds.len() >= 2);
 
             if let Some(stderr_to) = self.stderr_file {
@@ -989,7 +998,7 @@ mod pipeline {
                         if let Some(first) = ret.first_mut() {
                             first.stdin.take();
                         }
-                        return Err(e);
+                        return Err((e, ret));
                     }
                 }
             }
@@ -1048,7 +1057,17 @@ mod pipeline {
             self = self.stderr_to(err_write);
 
             let stdin_data = self.stdin_data.take();
-            let mut v = self.stdout(Redirection::Pipe).popen()?;
+            let mut v = match self.stdout(Redirection::Pipe).start() {
+                Ok(v) => v,
+                Err((err, started)) => {
+                    // Nobody is going to read the commands' standard error:
+                    // close it before waiting for them, or one that writes
+                    // more than the pipe holds would never exit.
+                    drop(err_read);
+                    drop(started);
+                    return Err(err);
+                }
+            };
             let vlen = v.len();
 
             let comm = communicate::communicate(
